@@ -5,10 +5,10 @@ SPEC = {
     "runners": [{
         "kind": "wqcases", "module": "CorrC09", "harness": "wqscript", "prop": "C09",
         "corr": "Run/CorrC09.v + Run/CorrWQ.v (model of the work queue vs /repo/workqueue, scripted schedules)",
-        "rule": 'scripted: each case = one script (bursts of Enqueue that fill the queue and block producers, completions, ResizeQueueLength; one stimulus at a time, quiescence from goroutine stacks) run on the real queue and replayed in Coq on Model/WQ.v with all internal interleavings; observed = started work functions, returned Enqueue calls; plus a black-box monitor on the log: running <= W always and running = min(unfinished, W) at every quiescent point. Generated as corpus, every word over {enqueue, enqueue, finish oldest, finish newest} up to a length bound, adaptive random bursts with W in 1..4. distinct = by (W, L, stimuli); non-trivial = a producer was blocked or an item had to wait.',
+        "rule": 'scripted: each case = one script (bursts of Enqueue that fill the queue and block producers, completions with nil AND with error results (a third of the random scripts without any error subscriber, a third with subscribers that receive, a third without errors; corpus scripts: failing items followed by ordinary ones on one worker, all items failing with a blocked producer), ResizeQueueLength; one stimulus at a time, quiescence from goroutine stacks) run on the real queue and replayed in Coq on Model/WQ.v with all internal interleavings; observed = started work functions, returned Enqueue calls; plus a black-box monitor on the log: running <= W always and running = min(unfinished, W) at every quiescent point (a failing item counts as finished: exact as long as not both an error and a subscriber have occurred). Generated as corpus, every word over {enqueue, enqueue, finish oldest, finish newest} up to a length bound, adaptive random bursts with W in 1..4. distinct = by (W, L, stimuli); non-trivial = a producer was blocked or an item had to wait.',
     }, {
         "kind": "wqstress", "name": "stress", "prop": "C09",
-        "rule": 'free-running: each case = one queue under real scheduling (-race) with an atomic current/max counter inside the work functions: max concurrency <= W, nothing lost, no Enqueue hangs; non-trivial = more items than W+L+1.',
+        "rule": 'free-running: each case = one queue under real scheduling (-race) with an atomic current/max counter inside the work functions, every n-th item failing (n random, 0 = none) with 0-2 receiving error subscribers: max concurrency <= W, nothing lost, no Enqueue hangs; non-trivial = more items than W+L+1.',
     }],
     "trusted": ["channels, select, sync.Map, atomics, context are modelled by contract (one step each)",
                 "quiescence detector (all goroutines blocked in two consecutive runtime.Stack snapshots)",
